@@ -682,7 +682,7 @@ func ruleCLIOneWrite(p *Prog, r *Report) {
 					continue
 				}
 				for _, n := range p.calleeNames(c) {
-					if n.repo || pureExternal[n.name] || n.name == "builtin.append" || strings.HasSuffix(n.name, ".init") {
+					if n.repo || isPureExternal(n.name) || n.name == "builtin.append" || strings.HasSuffix(n.name, ".init") {
 						continue
 					}
 					if _, ok := mutatorExternal[n.name]; ok {
